@@ -314,23 +314,25 @@ SHAPES = {k: shapes(k) for k in (3, 4, 5)}
 
 
 def family():
-    """the (shape, template) pairs of this run.  quick: all templates, each on 2 shapes of 4 elements (core) + seed-chosen shapes;
-    thorough: all templates x all shapes of 4 elements + a rotating quarter of the 5-element shapes."""
+    """the (shape, template, mixed-content mode) triples of this run.
+    quick:    every template on one 4-element shape (rotating) + a seed-chosen extra shape for a sixth of them; comment and text present.
+    thorough: every template on ALL 5 four-element shapes (comment and text present) + on one 4-element shape with comment/text
+              presence symbolic + on one seed-rotated 5-element shape; all four parsers."""
     pairs = []
     rnd = random.Random(SEED)
+    sh = SHAPES[4]
     if TIER == 'quick':
         for k, (expr, prog) in enumerate(ALL_T):
-            sh = SHAPES[4]
-            pairs.append((sh[k % len(sh)], expr, prog))
+            pairs.append((sh[k % len(sh)], expr, 'present'))
             if k % 6 == SEED % 6:
-                pairs.append((rnd.choice(sh), expr, prog))
+                pairs.append((rnd.choice(sh), expr, 'present'))
     else:
-        for (expr, prog) in ALL_T:
-            for P in SHAPES[4]:
-                pairs.append((P, expr, prog))
-            for P in rnd.sample(SHAPES[5], 4):
-                pairs.append((P, expr, prog))
-    return list(dict.fromkeys((P, e, repr(pr)) for P, e, pr in pairs)), {e: pr for _, e, pr in pairs}
+        for k, (expr, prog) in enumerate(ALL_T):
+            for P in sh:
+                pairs.append((P, expr, 'present'))
+            pairs.append((sh[(k + 2) % len(sh)], expr, 'symbolic'))
+            pairs.append((SHAPES[5][(k + SEED) % len(SHAPES[5])], expr, 'present'))
+    return list(dict.fromkeys(pairs)), dict(ALL_T)
 
 
 _SRC = '''
@@ -345,10 +347,11 @@ def case_{k}({targs}, n: int{extra_args}) -> bool:
     return run_case({P}, {expr!r}, PROGS[{expr!r}], [{tnames}], n, {wc}, {wt}, TIER)
 '''
 _pairs, PROGS = family()
-for _k, (_P, _expr, _) in enumerate(_pairs):
+for _k, (_P, _expr, _mode) in enumerate(_pairs):
     _names = ['t%d' % i for i in range(len(_P))]
-    define(_SRC.format(budget=90 if TIER == 'quick' else 400, P=tuple(_P), expr=_expr, k=_k,
+    _sym = _mode == 'symbolic'
+    define(_SRC.format(budget=90 if TIER == 'quick' else (120 if not _sym else 80), P=tuple(_P), expr=_expr, k=_k,
                        bound='shape %s (comment and text node %s), template %s: every labelling over {a,b,c}, $n any integer' % (
-                           tuple(_P), 'present' if TIER == 'quick' else 'symbolic', _expr), targs=', '.join('%s: str' % x for x in _names),
-                       tnames=', '.join(_names), extra_args='' if TIER == 'quick' else ', wc: bool, wt: bool',
-                       wc='True' if TIER == 'quick' else 'wc', wt='True' if TIER == 'quick' else 'wt'), globals())
+                           tuple(_P), _mode, _expr), targs=', '.join('%s: str' % x for x in _names),
+                       tnames=', '.join(_names), extra_args=', wc: bool, wt: bool' if _sym else '',
+                       wc='wc' if _sym else 'True', wt='wt' if _sym else 'True'), globals())
